@@ -214,6 +214,10 @@ def judge(ctx, scs):
             codes = []
         else:
             ctx.dist["judged"] += 1
+        for c in codes:
+            if c == 16:
+                ctx.known_hit("F16")
+        codes = [c for c in codes if c != 16]
         if codes:
             def fails(cand, bad0=codes[0]):
                 a2, b2, _, _, _ = syssim.run_impl(cand)
